@@ -181,6 +181,7 @@ func (a Acc) Val() int64 {
 // MEntry is a report entry of the model.
 type MEntry struct {
 	Name      string
+	F         MFrame // the attributes the entry keeps under the granularity
 	Flat, Cum Acc
 }
 
@@ -241,7 +242,7 @@ func BuildReport(p *profile.Profile, c RConf) *MReport {
 				path += "/" + f.Key(c.ByName)
 				e := r.Entries[path]
 				if e == nil {
-					e = &MEntry{Name: f.Printable()}
+					e = &MEntry{Name: f.Printable(), F: f}
 					r.Entries[path] = e
 				}
 				e.Cum.V += v
@@ -269,7 +270,7 @@ func BuildReport(p *profile.Profile, c RConf) *MReport {
 			k := f.Key(c.ByName)
 			e := r.Entries[k]
 			if e == nil {
-				e = &MEntry{Name: f.Printable()}
+				e = &MEntry{Name: f.Printable(), F: f}
 				r.Entries[k] = e
 			}
 			if !seen[k] {
